@@ -148,7 +148,7 @@ def write_replay(prop, v):
 def replay_file(path, timeout=120):
     """Fresh interpreter: returns (reproduced: bool|None, output)."""
     env = dict(os.environ)
-    env["PYTHONPATH"] = os.pathsep.join([os.path.join(VERIF, ".pydeps"), "/repo", VERIF])
+    env["PYTHONPATH"] = os.pathsep.join([os.path.join(VERIF, ".pydeps"), os.environ.get("VERIF_REPO", "/repo"), VERIF])
     try:
         p = subprocess.run([sys.executable, "-m", "harness.replay", path], cwd=VERIF, env=env,
                            capture_output=True, text=True, timeout=timeout)
